@@ -304,6 +304,13 @@ func (e *Engine) solveOne(rep *FuncReport, ob *Obligation, base string) {
 	}
 	if !decided {
 		ob.Status = "undischarged"
+		// No back end decided the full query. Look for a CANDIDATE counterexample under the
+		// quantifier-free hypotheses only (dropping hypotheses can only add models, so a
+		// candidate proves nothing by itself): it is kept for the replay on the real code,
+		// which alone can turn it into a failing input.
+		if cand := e.candidateModel(rep, ob, base); cand != "" {
+			ob.Model = cand
+		}
 		var notes []string
 		for _, r := range results {
 			first := strings.TrimSpace(strings.SplitN(r.out, "\n", 2)[0])
@@ -335,6 +342,13 @@ func (rep *FuncReport) valueTerms() string {
 		if p.Term != "" {
 			ts = append(ts, p.Term)
 		}
+	}
+	for _, dc := range rep.DynCalls {
+		if !strings.HasSuffix(dc.Key, ".Expression.Evaluate") {
+			continue
+		}
+		ts = append(ts, dc.Recv)
+		ts = append(ts, dc.Results...)
 	}
 	return strings.Join(ts, " ")
 }
@@ -385,4 +399,137 @@ func (w *stampWriter) Write(p []byte) (int, error) {
 		}
 	}
 	return len(p), nil
+}
+
+// SecondOpinion (thorough tier): every obligation the incremental z3 5.1.0 script discharged
+// is posed again as a stand-alone query to the two other back ends (z3 4.8.12, cvc5). An
+// answer "sat" contradicts the discharge and is an engine fault; "unsat" confirms it;
+// unknown/timeout is recorded. This cross-checks both the solver and the incremental
+// encoding (assert-then-assume over push/pop) against the stand-alone one.
+func (e *Engine) SecondOpinion(rep *FuncReport, scratch string, deadline time.Time) (confirmed, unknown int) {
+	if rep.Error != "" {
+		return
+	}
+	base := filepath.Join(scratch, mangle(rep.Func)+".second")
+	var mu sync.Mutex
+	var wg sync.WaitGroup
+	sem := make(chan struct{}, 4)
+	for i, ob := range rep.Obligations {
+		if ob.Status != "discharged" || ob.Kind == "vacuity" || !strings.Contains(ob.Backend, "(batch") {
+			continue
+		}
+		wg.Add(1)
+		go func(i int, ob *Obligation) {
+			defer wg.Done()
+			sem <- struct{}{}
+			defer func() { <-sem }()
+			if time.Now().After(deadline) {
+				mu.Lock()
+				unknown++
+				ob.Second = "not attempted: second-opinion budget used up"
+				mu.Unlock()
+				return
+			}
+			q := rep.queryFor(ob)
+			file := fmt.Sprintf("%s.%d.smt2", base, i)
+			os.WriteFile(file, []byte(smtHeader+q+"(check-sat)\n"), 0o644)
+			zfile := fmt.Sprintf("%s.%d.z3.smt2", base, i)
+			os.WriteFile(zfile, []byte(smtHeader+z3Header+q+"(check-sat)\n"), 0o644)
+			var notes []string
+			ok := false
+			for _, s := range solvers[1:] {
+				f := file
+				if strings.HasPrefix(s.name, "z3") {
+					f = zfile
+				}
+				res := runSolver(context.Background(), s, f, 15)
+				notes = append(notes, s.name+": "+res.status)
+				if res.status == "sat" {
+					ob.Status = "engine-fault"
+					ob.FailNote = fmt.Sprintf("back ends disagree: discharged by %s, but %s answers sat on the stand-alone query", ob.Backend, s.name)
+				}
+				if res.status == "unsat" {
+					ok = true
+				}
+			}
+			os.Remove(file)
+			os.Remove(zfile)
+			mu.Lock()
+			ob.Second = strings.Join(notes, ", ")
+			if ok {
+				confirmed++
+			} else {
+				unknown++
+			}
+			mu.Unlock()
+		}(i, ob)
+	}
+	wg.Wait()
+	return
+}
+
+// candidateModel asks z3 5.1.0 for a model of the negated obligation under the
+// quantifier-free hypotheses only. Used for undischarged obligations; never a verdict.
+func (e *Engine) candidateModel(rep *FuncReport, ob *Obligation, base string) string {
+	if ob.Kind == "vacuity" || rep.LightPreamble == "" {
+		return ""
+	}
+	var b strings.Builder
+	b.WriteString(rep.LightPreamble)
+	for i, it := range rep.items {
+		if i >= ob.Index {
+			break
+		}
+		if it.kind == 0 && !heavyText(it.text, rep.RecSyms) {
+			b.WriteString(it.text)
+			b.WriteByte('\n')
+		}
+	}
+	if heavyText(ob.Reach+ob.Cond, rep.RecSyms) {
+		return ""
+	}
+	fmt.Fprintf(&b, "(assert (and %s (not %s)))\n", ob.Reach, ob.Cond)
+	gv := ""
+	if ts := rep.valueTerms(); ts != "" {
+		gv = "(get-value (" + ts + "))\n"
+	} else {
+		return ""
+	}
+	// first with hints that make the model small and renderable (short collections of plain
+	// System values), then without
+	var hints strings.Builder
+	for _, p := range rep.Params {
+		if p.Sort == "Slice_Any" {
+			fmt.Fprintf(&hints, "(assert (<= (len_Any %s) 3))\n(assert (<= (cap_Any %s) 8))\n", p.Term, p.Term)
+			for k := 0; k < 3 && strings.HasSuffix(p.Type, "Collection"); k++ {
+				el := fmt.Sprintf("(select (arr_Any %s) %d)", p.Term, k)
+				var alts []string
+				for _, c := range []string{"b_system_Integer", "b_system_String", "b_system_Boolean", "b_system_Decimal"} {
+					if strings.Contains(rep.LightPreamble, "("+c+" ") {
+						alts = append(alts, fmt.Sprintf("((_ is %s) %s)", c, el))
+					}
+				}
+				if len(alts) > 0 {
+					fmt.Fprintf(&hints, "(assert (or %s))\n", strings.Join(alts, " "))
+				}
+			}
+		} else if strings.HasPrefix(p.Sort, "Slice_") {
+			m := strings.TrimPrefix(p.Sort, "Slice_")
+			fmt.Fprintf(&hints, "(assert (<= (len_%s %s) 3))\n", m, p.Term)
+		} else if p.Sort == "String" {
+			fmt.Fprintf(&hints, "(assert (<= (str.len %s) 8))\n", p.Term)
+		}
+	}
+	for attempt, extra := range []string{hints.String(), ""} {
+		if attempt == 1 && hints.Len() == 0 {
+			break
+		}
+		file := fmt.Sprintf("%s.cand%d.z3.smt2", base, attempt)
+		os.WriteFile(file, []byte(smtHeader+z3Header+b.String()+extra+"(check-sat)\n"+gv), 0o644)
+		res := runSolver(context.Background(), solvers[0], file, 10)
+		if res.status == "sat" {
+			return res.out
+		}
+	}
+	return ""
 }
